@@ -145,8 +145,11 @@ func mapPages(lo, hi uintptr) {
 // byte is the start of an unmapped page (alignment modulo 8 preserved).
 func Region(label string, base, capacity uintptr, init int) []byte {
 	r := &region{base: base, cap: capacity, limit: capacity}
-	if l, ok := rf.Limits[label]; ok && uintptr(l) < capacity && l%8 == 0 {
+	if l, ok := rf.Limits[label]; ok && uintptr(l) < capacity {
 		r.limit = uintptr(l)
+	}
+	if init&2 != 0 && r.limit%8 == 0 {
+		// guard placement: the first inaccessible byte is the start of an unmapped page
 		end := (base + r.limit + pageSize - 1) &^ (pageSize - 1)
 		r.base = end - r.limit
 		mapPages(r.base, end)
